@@ -59,6 +59,8 @@ struct Spec {
     ignored_mode: Option<&'static str>,
     file_mode: bool,
     trust_ctime: bool,
+    /// no commit yet (everything is only staged)
+    unborn_head: bool,
 }
 
 fn gen(t: &mut Tape) -> Spec {
@@ -86,7 +88,7 @@ fn gen(t: &mut Tape) -> Spec {
     let racy_world = t.chance(70);
     for _ in 0..nm {
         let k = t.below(tracked.len().max(1));
-        let m = match t.weighted(&[6, 5, 2, 3, 4, 5, 3, 2, 3, 4, 8, 5, 3, 6, 1, 2, 2]) {
+        let m = match t.weighted(&[6, 5, 2, 3, 4, 5, 2, 1, 3, 5, 8, 5, 3, 6, 1, 2, 2]) {
             0 => Mutation::ModifySameSize(k),
             1 => Mutation::ModifyGrow(k),
             2 => Mutation::Truncate(k),
@@ -127,6 +129,7 @@ fn gen(t: &mut Tape) -> Spec {
         ignored_mode,
         file_mode: !t.chance(40),
         trust_ctime: !racy_world,
+        unborn_head: t.chance(8),
     }
 }
 
@@ -219,7 +222,11 @@ fn gix_status(repo: &gix::Repository, spec: &Spec) -> Result<BTreeSet<Record>, S
         .status(gix::progress::Discard)
         .map_err(|e| format!("status(): {e}"))?
         .untracked_files(untracked)
-        .dirwalk_options(|o| o.emit_ignored(mode))
+        // ignored entries inside a collapsed untracked directory are listed by git: that is `OnStatusMismatch`
+        .dirwalk_options(|o| {
+            o.emit_ignored(mode)
+                .emit_collapsed(mode.map(|_| gix::dir::walk::CollapsedEntriesEmissionMode::OnStatusMismatch))
+        })
         .index_worktree_submodules(None);
     let iter = platform.into_index_worktree_iter(Vec::new()).map_err(|e| format!("into_index_worktree_iter: {e}"))?;
     let mut set = BTreeSet::new();
@@ -259,6 +266,24 @@ fn gix_status(repo: &gix::Repository, spec: &Spec) -> Result<BTreeSet<Record>, S
     Ok(set)
 }
 
+/// Author's aid for (re)creating pinned cases: `VERIF_PIN_HUNT=<signature>` makes the strict sub-check report that
+/// known class under the signature `hunt:<signature>`, so that the runner shrinks and stores a case for it.
+fn hunted(sig: &str) -> String {
+    match std::env::var("VERIF_PIN_HUNT") {
+        Ok(h) if h == sig => format!("hunt:{sig}"),
+        _ => sig.to_string(),
+    }
+}
+
+/// one-byte code (1..=250) of a signature, see the strict mode of `run_world`
+fn focus_code(sig: &str) -> u8 {
+    let mut h: u32 = 2166136261;
+    for b in sig.bytes() {
+        h = (h ^ b as u32).wrapping_mul(16777619);
+    }
+    (h % 250) as u8 + 1
+}
+
 fn show_set(s: &BTreeSet<Record>) -> String {
     s.iter()
         .map(|(k, p, d)| format!("{k} {}{}", show(p), if *d { "/" } else { "" }))
@@ -266,13 +291,9 @@ fn show_set(s: &BTreeSet<Record>) -> String {
         .join(", ")
 }
 
-pub fn main() {
-    let mut ck = Check::new("C49", "exploration");
-    ck.rule("One case = a repository with 4..24 tracked files (nested directories, some executable, some symlinks, sizes 0/7/40/300), .gitignore files at up to 4 levels plus info/exclude (patterns: *.o, build/, /h, !keep.o, a/b/*.rs, **/deep, ...), all staged; then 1..10 worktree mutations (modify same size / grow / truncate, touch, chmod toggle, delete, file->dir, dir->file, file->symlink, stat-clean same-size edits with the index timestamp pinned at or above the entry mtime, untracked files / empty dirs / dirs with untracked+ignored content and nested dirs / nested repository / symlink, ignored files, intent-to-add), with showUntrackedFiles no|normal|all, ignored reporting off|traditional|matching, core.fileMode on/off, core.trustctime on/off. Non-trivial: a stat-clean (racy) edit, a type change, or an untracked directory containing ignored files. Distinct by hash of the decoded case.");
-    ck.assume(&format!("oracle: {} `--no-optional-locks status --porcelain=v2 -z`; HEAD is unborn (only the worktree column and ?/! records are compared)", Git::version()));
-    ck.assume("mapping of modes: showUntrackedFiles=normal <-> UntrackedFiles::Collapsed, all <-> Files, no <-> None; --ignored=traditional (with normal) <-> emit_ignored(CollapseDirectory), --ignored=matching (with all) <-> emit_ignored(Matching); submodules, rewrites (rename tracking), sparse checkouts, core.ignoreCase and precomposeUnicode are not exercised");
-
-    ck.sub("world", SubCfg::new(160, 4_000).max_len(700).max_shrink(12), |t, c| {
+/// One world. `strict`: a disagreement that is completely explained by known deviation classes fails the case with
+/// the class signature (pinned replays); otherwise it is only counted, so that the search goes on behind it.
+fn run_world(t: &mut Tape, c: &mut Case, strict: bool) {
         let spec = gen(t);
         c.key(&spec);
         let world = infra!(c, World::new("c49", false), "world");
@@ -313,6 +334,11 @@ pub fn main() {
         }
         // stage everything (ignored tracked-to-be files are forced in so that tracked+ignored combinations exist)
         infra!(c, git.run(["add", "-f", "-A", "."]), "git add");
+        if spec.unborn_head {
+            c.label("unborn-head");
+        } else {
+            infra!(c, git.run(["commit", "-q", "-m", "init"]), "git commit");
+        }
         let index_path = root.join(".git/index");
         let index_mtime = infra!(c, std::fs::metadata(&index_path).and_then(|m| m.modified()), "index mtime");
 
@@ -325,6 +351,7 @@ pub fn main() {
         let mut nontrivial = false;
         let mut ita: Vec<String> = Vec::new();
         let mut pin_index_racy: Option<bool> = None;
+        let mut stat_clean_mtimes: Vec<std::time::SystemTime> = Vec::new();
         for (i, m) in spec.mutations.iter().enumerate() {
             let usable = |p: &Path, gone: &Vec<PathBuf>| {
                 p.symlink_metadata().map_or(false, |m| m.is_file()) && !gone.iter().any(|g| p.starts_with(g))
@@ -428,6 +455,7 @@ pub fn main() {
                         "utimes"
                     );
                     pin_index_racy = Some(*racy);
+                    stat_clean_mtimes.push(infra!(c, meta.modified(), "mtime"));
                     nontrivial = true;
                     c.label(if *racy { "stat-clean-edit-racy" } else { "stat-clean-edit-not-racy" });
                 }
@@ -520,8 +548,11 @@ pub fn main() {
         }
         // pin the index timestamp: racy = the index is not newer than the entries it describes
         if let Some(racy) = pin_index_racy {
-            let base = infra!(c, std::fs::metadata(&index_path).and_then(|m| m.modified()), "index mtime");
-            let ts = if racy { base - std::time::Duration::from_secs(3) } else { base + std::time::Duration::from_secs(30) };
+            // relative to the edited entries' own (restored) mtimes, so that the case does not depend on how long
+            // the git commands above took
+            let lo = stat_clean_mtimes.iter().min().copied().unwrap_or(index_mtime);
+            let hi = stat_clean_mtimes.iter().max().copied().unwrap_or(index_mtime);
+            let ts = if racy { lo - std::time::Duration::from_secs(1) } else { hi + std::time::Duration::from_secs(30) };
             infra!(c, filetime::set_file_mtime(&index_path, filetime::FileTime::from_system_time(ts)), "utimes index");
         }
         c.nontrivial(nontrivial);
@@ -546,7 +577,21 @@ pub fn main() {
         let got = match gix_status(&repo, &spec) {
             Ok(s) => s,
             Err(e) => {
-                c.fail_sig("gix-status-error", format!("gitoxide status failed: {e}; case {spec:?}"));
+                let sig = if spec.unborn_head && e.contains("Did not find commit in current HEAD") {
+                    "status-fails-on-unborn-head"
+                } else if e.contains("IO error while writing blob or reading file metadata")
+                    && spec.mutations.iter().any(|m| matches!(m, Mutation::DirToFile(_)))
+                {
+                    // known deviation class: a tracked path whose parent directory is now a file (lstat: ENOTDIR)
+                    "tracked-path-below-a-file-is-an-io-error"
+                } else {
+                    "gix-status-error"
+                };
+                if sig != "gix-status-error" && !strict {
+                    c.label("world-in-known-deviation-class");
+                    return;
+                }
+                c.fail_sig(&hunted(sig), format!("gitoxide status failed: {e}; case {spec:?}"));
                 return;
             }
         };
@@ -564,30 +609,163 @@ pub fn main() {
         let out = infra!(c, git.clone().env("GIT_OPTIONAL_LOCKS", "0").run(&args), "git status");
         let want = infra!(c, parse_git_status(&out), "parse git status");
         if got != want {
-            let only_git: BTreeSet<_> = want.difference(&got).cloned().collect();
-            let only_gix: BTreeSet<_> = got.difference(&want).cloned().collect();
-            // signature: the record kinds involved
-            let kinds: BTreeSet<char> = only_git.iter().chain(only_gix.iter()).map(|r| r.0).collect();
-            let kind = kinds.iter().map(|k| match k {
-                '?' => "untracked",
-                '!' => "ignored",
-                'M' => "modified",
-                'D' => "deleted",
-                'T' => "typechange",
-                'A' => "intent-to-add",
-                _ => "other",
-            }).collect::<Vec<_>>().join("+");
-            c.fail_sig(
-                &format!("status-differs:{kind}"),
-                format!(
-                    "only git: [{}]; only gitoxide: [{}]; (git: [{}]) case {spec:?}",
-                    show_set(&only_git),
-                    show_set(&only_gix),
-                    show_set(&want)
-                ),
+            let mut only_git: BTreeSet<Record> = want.difference(&got).cloned().collect();
+            let mut only_gix: BTreeSet<Record> = got.difference(&want).cloned().collect();
+            let all_git = show_set(&only_git);
+            let all_gix = show_set(&only_gix);
+            // --- known deviation classes explain individual records; whatever is left over is reported generically
+            let mut classes: Vec<&'static str> = Vec::new();
+            let tracked_exec: BTreeSet<Vec<u8>> = spec
+                .tracked
+                .iter()
+                .filter(|(_, _, exec, _, symlink)| *exec && !*symlink)
+                .map(|(d, f, ..)| rel(*d, NAMES[*f]).into_bytes())
+                .collect();
+            let tracked_all: BTreeSet<Vec<u8>> =
+                spec.tracked.iter().map(|(d, f, ..)| rel(*d, NAMES[*f]).into_bytes()).collect();
+            // (f) directories without any file below them: git never lists them, gitoxide lists them as untracked or
+            //     ignored directories
+            fn has_files(p: &Path) -> bool {
+                std::fs::read_dir(p).map_or(false, |rd| {
+                    rd.flatten().any(|e| match e.file_type() {
+                        Ok(t) if t.is_dir() => has_files(&e.path()),
+                        Ok(_) => true,
+                        Err(_) => true,
+                    })
+                })
+            }
+            for rec in only_gix.clone() {
+                if rec.2 && matches!(rec.0, '?' | '!') && !has_files(&root.join(rec.1.to_path_lossy().as_ref())) {
+                    only_gix.remove(&rec);
+                    classes.push("directory-without-files-is-listed");
+                }
+            }
+            // (a) executable file replaced by a symlink: git `T`, gitoxide `M`
+            for rec in only_git.clone() {
+                if rec.0 == 'T' && tracked_exec.contains(&rec.1) && only_gix.remove(&('M', rec.1.clone(), false)) {
+                    only_git.remove(&rec);
+                    classes.push("typechange-of-executable-file-reported-as-modification");
+                }
+            }
+            // (b) a directory now sits where the index has a file: git does not list it as untracked
+            for rec in only_gix.clone() {
+                if matches!(rec.0, '?' | '!') && rec.2 && tracked_all.contains(&rec.1) {
+                    only_gix.remove(&rec);
+                    classes.push("directory-replacing-tracked-file-listed-as-untracked");
+                }
+            }
+            // (d) a racily clean but modified entry (stat data equal, index not newer than the entry): gitoxide's
+            //     iterator keeps it back as a mere index update (size := 0) and never yields the modification
+            //     (also reached without pinned timestamps when a same-size edit happens within the second of the
+            //     index write)
+            for m in &spec.mutations {
+                if let Mutation::StatClean(k, true) | Mutation::ModifySameSize(k) = m {
+                    let (d, f, ..) = spec.tracked[(*k).min(spec.tracked.len() - 1)];
+                    let rec = ('M', rel(d, NAMES[f]).into_bytes(), false);
+                    if only_git.remove(&rec) {
+                        classes.push("racily-modified-entry-not-reported");
+                    }
+                }
+            }
+            // (e) an untracked directory that contains a nested repository: git collapses it like any other untracked
+            //     directory, gitoxide never collapses across a repository and lists the entries inside
+            let nested: Vec<Vec<u8>> = spec
+                .mutations
+                .iter()
+                .enumerate()
+                .filter_map(|(i, m)| match m {
+                    Mutation::NestedRepo(d) => Some(rel(*d, &format!("nested{i}")).into_bytes()),
+                    _ => None,
+                })
+                .collect();
+            for rec in only_git.clone() {
+                if rec.0 != '?' || !rec.2 {
+                    continue;
+                }
+                let mut prefix = rec.1.clone();
+                prefix.push(b'/');
+                if nested.iter().any(|n| n.starts_with(&prefix)) {
+                    let inside: Vec<Record> = only_gix.iter().filter(|g| g.1.starts_with(&prefix)).cloned().collect();
+                    if !inside.is_empty() {
+                        for g in inside {
+                            only_gix.remove(&g);
+                        }
+                        only_git.remove(&rec);
+                        classes.push("untracked-directory-with-nested-repository-not-collapsed");
+                    }
+                }
+            }
+            // (c) a directory whose tracked entries are all gone from disk: git still knows it as a tracked directory
+            //     and lists the untracked/ignored entries inside individually, gitoxide collapses it
+            for rec in only_gix.clone() {
+                if !rec.2 || !matches!(rec.0, '?' | '!') {
+                    continue;
+                }
+                let mut prefix = rec.1.clone();
+                prefix.push(b'/');
+                if !tracked_all.iter().any(|t| t.starts_with(&prefix)) {
+                    continue;
+                }
+                let inside: Vec<Record> =
+                    only_git.iter().filter(|g| g.0 == rec.0 && g.1.starts_with(&prefix)).cloned().collect();
+                if !inside.is_empty() {
+                    for g in inside {
+                        only_git.remove(&g);
+                    }
+                    only_gix.remove(&rec);
+                    classes.push("directory-of-deleted-tracked-files-is-collapsed");
+                } else if tracked_all
+                    .iter()
+                    .any(|t| t.starts_with(&prefix) && root.join(t.to_path_lossy().as_ref()).is_dir())
+                {
+                    // ... and what is left inside is a directory in the place of a tracked file, see (b)
+                    only_gix.remove(&rec);
+                    classes.push("directory-replacing-tracked-file-listed-as-untracked");
+                }
+            }
+            let msg = format!(
+                "only git: [{all_git}]; only gitoxide: [{all_gix}]; (git: [{}]) case {spec:?}",
+                show_set(&want)
             );
+            if only_git.is_empty() && only_gix.is_empty() {
+                c.label("world-in-known-deviation-class");
+                if strict {
+                    // which class is reported, when several apply, is selected by the byte that follows the case
+                    // on the tape (0 / no match: the first), so that every pinned case can name its own class
+                    let focus = t.u8();
+                    let at = t.consumed().len().saturating_sub(1);
+                    let class = classes.iter().find(|k| focus_code(k) == focus).unwrap_or(&classes[0]);
+                    c.fail_sig(&hunted(class), format!("{msg} [focus byte {focus} at tape offset {at}]"));
+                }
+            } else {
+                let kinds: BTreeSet<char> = only_git.iter().chain(only_gix.iter()).map(|r| r.0).collect();
+                let kind = kinds
+                    .iter()
+                    .map(|k| match k {
+                        '?' => "untracked",
+                        '!' => "ignored",
+                        'M' => "modified",
+                        'D' => "deleted",
+                        'T' => "typechange",
+                        'A' => "intent-to-add",
+                        _ => "other",
+                    })
+                    .collect::<Vec<_>>()
+                    .join("+");
+                c.fail_sig(&format!("status-differs:{kind}"), msg);
+            }
         }
-    });
+    }
+
+pub fn main() {
+    let mut ck = Check::new("C49", "exploration");
+    ck.rule("One case = a repository with 4..24 tracked files (nested directories, some executable, some symlinks, sizes 0/7/40/300), .gitignore files at up to 4 levels plus info/exclude (patterns: *.o, build/, /h, !keep.o, a/b/*.rs, **/deep, ...), all staged; then 1..10 worktree mutations (modify same size / grow / truncate, touch, chmod toggle, delete, file->dir, dir->file, file->symlink, stat-clean same-size edits with the index timestamp pinned at or above the entry mtime, untracked files / empty dirs / dirs with untracked+ignored content and nested dirs / nested repository / symlink, ignored files, intent-to-add), with showUntrackedFiles no|normal|all, ignored reporting off|traditional|matching, core.fileMode on/off, core.trustctime on/off. Non-trivial: a stat-clean (racy) edit, a type change, or an untracked directory containing ignored files. Distinct by hash of the decoded case.");
+    ck.assume(&format!("oracle: {} `--no-optional-locks status --porcelain=v2 -z`; only the worktree column and ?/! records are compared (the index equals HEAD, or HEAD is unborn in 1 of 18 cases)", Git::version()));
+    ck.assume("mapping of modes: showUntrackedFiles=normal <-> UntrackedFiles::Collapsed, all <-> Files, no <-> None; --ignored=traditional (with normal) <-> emit_ignored(CollapseDirectory) + emit_collapsed(OnStatusMismatch), --ignored=matching (with all) <-> emit_ignored(Matching); submodules, rewrites (rename tracking), sparse checkouts, core.ignoreCase and precomposeUnicode are not exercised");
+
+    ck.sub("world", SubCfg::new(160, 4_000).max_len(700).max_shrink(12), |t, c| run_world(t, c, false));
+    // replays of the pinned known findings (plus two random worlds) with known classes reported
+    ck.sub("pinned", SubCfg::new(2, 8).max_len(700).max_shrink(6), |t, c| run_world(t, c, true));
 
     ck.finish();
 }
